@@ -101,6 +101,7 @@ type ContractDB struct {
 	Macros map[string]*Macro
 	Specs  map[string]*SpecFunc
 	Lemmas []*Lemma
+	Luas   []*LuaContract
 	Files  []string
 }
 
@@ -318,6 +319,7 @@ func (db *ContractDB) parseFile(path, pkgPath string, trusted bool) error {
 	}
 	var cur *FuncContract
 	var curLemma *Lemma
+	var curLua *LuaContract
 	for _, l := range lines {
 		src := fmt.Sprintf("%s:%d", path, l.no)
 		word, rest := l.text, ""
@@ -336,7 +338,12 @@ func (db *ContractDB) parseFile(path, pkgPath string, trusted bool) error {
 		case "package":
 			pkgPath = rest
 			cur, curLemma = nil, nil
+		case "lua":
+			curLua = &LuaContract{Pkg: pkgPath, Const: rest, Src: src}
+			cur, curLemma = nil, nil
+			db.Luas = append(db.Luas, curLua)
 		case "func":
+			curLua = nil
 			cur = &FuncContract{Pkg: pkgPath, Name: rest, MayPanic: map[string]bool{}, Loops: map[int]*LoopSpec{}, Trusted: trusted, Src: src, Opaque: map[string]bool{}, Havocs: map[string][]string{}}
 			curLemma = nil
 			key := pkgPath + "::" + rest
@@ -387,8 +394,28 @@ func (db *ContractDB) parseFile(path, pkgPath string, trusted bool) error {
 			lm.Pkg = pkgPath
 			curLemma = lm
 			cur = nil
+			curLua = nil
 			db.Lemmas = append(db.Lemmas, lm)
 		default:
+			if curLua != nil {
+				switch word {
+				case "requires", "ensures":
+					c, err := mkClause(word)
+					if err != nil {
+						return err
+					}
+					if word == "requires" {
+						curLua.Requires = append(curLua.Requires, c)
+					} else {
+						curLua.Ensures = append(curLua.Ensures, c)
+					}
+				case "prop":
+					curLua.Props = append(curLua.Props, strings.Fields(strings.ReplaceAll(rest, ",", " "))...)
+				default:
+					return fmt.Errorf("%s: directive %q not allowed in lua block", src, word)
+				}
+				continue
+			}
 			if cur == nil && curLemma == nil {
 				return fmt.Errorf("%s: directive %q outside func/lemma block", src, word)
 			}
